@@ -311,6 +311,7 @@ func concRecord(args []string) int {
 	var wg sync.WaitGroup
 	var firstErr error
 	var emu sync.Mutex
+	starved := 0
 	sem := make(chan struct{}, *par)
 	for i := range runs {
 		wg.Add(1)
@@ -319,6 +320,14 @@ func concRecord(args []string) int {
 			defer wg.Done()
 			defer func() { <-sem }()
 			o, err := concRunOne(i, &runs[i], *spin)
+			if err != nil && *spin && strings.Contains(err.Error(), "i/o timeout") {
+				// the optional spinlock does not queue: under continuous readers a writer can starve for longer than a
+				// client waits (a property of that lock, see DESIGN C14); such a run is left out, a few of them are tolerated
+				emu.Lock()
+				starved++
+				emu.Unlock()
+				return
+			}
 			if err != nil {
 				emu.Lock()
 				if firstErr == nil {
@@ -331,6 +340,9 @@ func concRecord(args []string) int {
 		}(i)
 	}
 	wg.Wait()
+	if firstErr == nil && starved > 2+len(runs)/200 {
+		firstErr = fmt.Errorf("%d of %d runs timed out under the spinlock", starved, len(runs))
+	}
 	if firstErr != nil {
 		fmt.Fprintln(os.Stderr, "harness error:", firstErr)
 		return 2
@@ -345,6 +357,9 @@ func concRecord(args []string) int {
 	enc.SetEscapeHTML(false)
 	tot := map[string]int{}
 	for _, o := range outs {
+		if o == nil {
+			continue
+		}
 		sort.Slice(o.Events, func(a, b int) bool { return o.Events[a].Ord < o.Events[b].Ord })
 		enc.Encode(o)
 		for k, v := range o.Stats {
@@ -353,7 +368,7 @@ func concRecord(args []string) int {
 	}
 	bw.Flush()
 	of.Close()
-	emit(map[string]interface{}{"runs": len(outs), "events": tot})
+	emit(map[string]interface{}{"runs": len(outs) - starved, "events": tot, "runs_left_out_starved_under_the_spinlock": starved})
 	return 0
 }
 
